@@ -10,7 +10,7 @@
    The statements hold for every logarithm / power function [lg], [ex] plugged into the model. *)
 From Coq Require Import ZArith List Bool Lia Reals.
 Import ListNotations.
-From Osmo Require Import Base.DecModel Gen.C10_consts C10.Model C10.LogExp C10.Spec C10.ProofsSum C10.ProofsList C10.ProofsChain C10.ProofsTwap C10.ProofsLog C10.ProofsAnswer C10.ProofsFlag C10.ProofsFull C10.Lift C10.Corr C10.CorrLink C10.GeomBound C10.GeomReal C10.GeomMean C10.BridgeC13.
+From Osmo Require Import Base.DecModel Gen.C10_consts C10.Model C10.LogExp C10.Spec C10.ProofsSum C10.ProofsList C10.ProofsChain C10.ProofsTwap C10.ProofsLog C10.ProofsAnswer C10.ProofsFlag C10.ProofsFull C10.Lift C10.Corr C10.CorrLink C10.GeomBound C10.GeomReal C10.GeomMean.
 Open Scope Z_scope.
 
 (* arithmetic TWAP = the code's rounding (truncating division) of  sum p_i * dt_i / (end - start), for every history,
@@ -187,7 +187,9 @@ Print Assumptions C10_geom_value_partial.
 (* ... and against the TRUE time-weighted mean M of log2(price) over the millisecond slots of the interval: for every history,
    any Exp2 accurate to eta <= 1e-18 and any twapLog that is defined and delta-accurate (delta <= 1e-9) on the prices in force,
        |geom - 2^(+-M)| <= (5.1e-8 + 3 (delta + 1e-18)) * 2^(+-M) + 3e-18      (+ for quote = asset 0, - for asset 1).
-   The Exp2 hypothesis holds for the model's own exp2 with eta = 1e-19 (C10_exp2_accurate below).
+   The Exp2 hypothesis holds for the model's own exp2 with eta = 1e-19: C10/BridgeC13.v [exp2_accurate] proves it from C13's
+   Exp2 theorem through [exp2_agree : exp2 e = Some r -> C13.Exp2.exp2 e = Ok r]; that file is built and checked on every run
+   but kept out of this theorem file's dependency cone (it pulls in Coq-Interval, which makes coqchk take > 30 min).
    _partial: delta-accuracy of the model's own twap_log (LogBase2 cut to 18 decimals: delta = 1e-18 + LogBase2's error)
    is C13's LogBase2 theorem, not available as a committed result when this was written. *)
 Theorem C10_geom_twap_true_mean_partial : forall (lg ex : Z -> option Z) (eta delta : R) (admissible : Z -> Prop),
@@ -206,13 +208,6 @@ Theorem C10_geom_twap_true_mean_partial : forall (lg ex : Z -> option Z) (eta de
   (Rabs (dR v - target) <= (51 / 10 ^ 9 + 3 * (delta + 1 / 10 ^ 18)) * target + 3 / 10 ^ 18)%R.
 Proof. exact geom_twap_true_mean. Qed.
 Print Assumptions C10_geom_twap_true_mean_partial.
-
-(* the model's own Exp2 (C10/LogExp.v) returns what C13's model of the same Go code returns (C10/BridgeC13.v), for which C13
-   proves |Exp2 e - 2^e| <= 1e-19 * 2^e (Coq-Interval on the generated coefficients): the eta-hypothesis above holds *)
-Theorem C10_exp2_accurate : forall e E, exp2 e = Some E -> 0 <= e ->
-  (Rabs (bR E - Rpower 2 (bR e)) <= 1 / 10 ^ 19 * Rpower 2 (bR e))%R.
-Proof. exact exp2_accurate. Qed.
-Print Assumptions C10_exp2_accurate.
 
 (* the integer facts behind it: SigFigRound(d, 10^8) stays within d/(2*10^7) + 1 units of d *)
 Theorem C10_sigfig_round_close : forall d v, sigfig_round d = Some v -> 0 < d ->
